@@ -117,7 +117,11 @@ def run_job(job):
         res["known_seen"] = sorted(eng.known_seen)
         # ---- differential validation of explored paths: symbolic outcome == real-stack outcome
         for p in eng.path_log:
-            inputs = eng.concretize(p["pc"], None, p["cf_apps"], pretty=bool(getattr(hm, "PRETTY_SAMPLES", False)))
+            eng.light = True
+            try:
+                inputs = eng.concretize(p["pc"], None, p["cf_apps"], pretty=bool(getattr(hm, "PRETTY_SAMPLES", False)))
+            finally:
+                eng.light = False
             if inputs is None or not eng.last_concretize_refined:
                 continue    # no witness, or one that relies on an unrealistic interpretation of casefold
             out, labels, _ = _concrete_run(hm, job, inputs, job.get("known_active", ()))
